@@ -450,17 +450,22 @@ def C11():
     from contracts.headers import SublineHeader
     from contracts.row import ConvertSpecialChars
     from contracts.attributes import EncodeRows
+    from contracts import replayers as R
     return Property(
         "C11", units=[ContractUnit(u) for u in UNITS] + [ContractUnit(ConvertSpecialChars()), ContractUnit(EncodeRows()), ContractUnit(EncodeText()),
                       ContractUnit(SublineHeader())] + TABLES + BOUNDED, level="other",
-        technique="gating and dispatch contracts on the real convert_text_content / _convert_single_command / _convert_special_chars (convert off = "
+        technique="gating and dispatch contracts on the real convert_text_content / _convert_single_text / convert_latex_to_unicode (the whole text is scanned "
+                  "once by the converter's own pattern, a match is replaced by the lookup of the whole token) / _convert_single_command / _convert_special_chars (convert off = "
                   "verbatim + escaping; per-cell binding of text_convert); the real tables (ordered literal mapping, 682 symbols, token pattern, "
                   "component defaults) evaluated exhaustively; bounded residual: real pipeline vs an independent reference converter over commands x templates",
         trusted_base=[SOLVERS, ENGINE, "str.replace / re.sub implement left-to-right non-overlapping replacement (assumed, L5); the LaTeX pass as a whole is an uninterpreted function in the proofs"],
         assumptions=["token language: the real pattern string is compared with the documented one (string equality, not language equivalence)",
                      "title / footnote / source lines bind text_convert at their own row (unit EncodeText); the subline_by heading is never LaTeX-converted "
-                     "(unit SublineHeader); the encode_spanning_row default (text_convert False when the body leaves it unset) is not under contract"],
-        replayers={}, design_ref="4/C11")
+                     "(unit SublineHeader); the encode_spanning_row default (text_convert False when the body leaves it unset) is not under contract",
+                     "re: pattern.sub(f, s) and Match.group(0) are assumed contracts (unit ConvertLatexToUnicode binds the pattern object, the scanned text and "
+                     "the replacement function); a failing converter leaves the text unconverted (code-derived clause of _convert_single_text)"],
+        replayers={"text_conversion/": R.replay_text_conversion, "services/text_conversion_service.py::": R.replay_text_conversion,
+                   "row.py::": R.replay_text_conversion, "table::conversion_tables": R.replay_text_conversion}, design_ref="4/C11")
 
 
 def C17():
@@ -588,8 +593,8 @@ MANIFEST_TEXT = {
     },
     "C11": {
         "text": "Proved on the real code: conversion off returns the text verbatim (then only character escaping), conversion on applies the "
-                "literal chain then the LaTeX pass; each cell's convert flag is text_convert at that cell; command lookup uses the whole token and "
-                "is the identity on a miss. Exhaustive over the real tables: the ordered 8-entry literal mapping, all 682 symbols, the token "
+                "literal chain then the LaTeX pass; each cell's convert flag is text_convert at that cell; the LaTeX pass scans the whole text once with the converter's own pattern and replaces a match "
+                "by the lookup of the whole matched token; command lookup uses the whole token and is the identity on a miss. Exhaustive over the real tables: the ordered 8-entry literal mapping, all 682 symbols, the token "
                 "pattern, the per-component defaults. Residual, bounded: the real pipeline equals an independent reference converter on commands x "
                 "13 context templates (150+ commands quick, all 682 thorough).",
         "note": "Level 'other' (proof of gating/tables + bounded residual). Known finding: '>=' / '<=' leave the delimiter space of the intermediate token.",
